@@ -45,6 +45,15 @@ def _sx_ite(c, a, b):
     return core.ite(c, a, b)
 
 
+def _sx_join(sep, parts):
+    """sep.join(parts) where parts may contain symbolic byte strings"""
+    if isinstance(sep, (bytes, bytearray)):
+        parts = list(parts)
+        if any(isinstance(p, (seqs.SBytes, seqs.SByteArray, seqs.SView)) for p in parts):
+            return seqs.SBytes(list(sep)).join(parts)
+    return sep.join(parts)
+
+
 INJECT = {
     'bytes': seqs.sx_bytes,
     'bytearray': seqs.sx_bytearray,
@@ -56,12 +65,14 @@ INJECT = {
     'min': seqs.sx_min,
     'max': seqs.sx_max,
     'SX_struct': seqs.sx_struct,
+    'SX_io': seqs.sx_io,
     'SX_add': seqs.sx_add,
     'SX_mod': seqs.sx_mod,
     'SX_iadd': _sx_iadd,
     'SX_in': _sx_in,
     'SX_not_in': _sx_not_in,
     'SX_ite': _sx_ite,
+    'SX_join': _sx_join,
 }
 
 
@@ -96,6 +107,15 @@ class _Rewriter(ast.NodeTransformer):
         return ast.copy_location(ast.Call(
             func=ast.Name(id=fn, ctx=ast.Load()), args=[node.left, node.right], keywords=[]), node)
 
+    def visit_Call(self, node):
+        self.generic_visit(node)
+        if isinstance(node.func, ast.Attribute) and node.func.attr == 'join' and \
+                len(node.args) == 1 and not node.keywords:
+            return ast.copy_location(ast.Call(
+                func=ast.Name(id='SX_join', ctx=ast.Load()),
+                args=[node.func.value, node.args[0]], keywords=[]), node)
+        return node
+
     def visit_AugAssign(self, node):
         self.generic_visit(node)
         if isinstance(node.op, ast.Add) and isinstance(node.target, ast.Name):
@@ -109,10 +129,10 @@ class _Rewriter(ast.NodeTransformer):
     def visit_Import(self, node):
         out = []
         for alias in node.names:
-            if alias.name == 'struct':
+            if alias.name in ('struct', 'io'):
                 out.append(ast.copy_location(ast.Assign(
-                    targets=[ast.Name(id=alias.asname or 'struct', ctx=ast.Store())],
-                    value=ast.Name(id='SX_struct', ctx=ast.Load())), node))
+                    targets=[ast.Name(id=alias.asname or alias.name, ctx=ast.Store())],
+                    value=ast.Name(id='SX_' + alias.name, ctx=ast.Load())), node))
             else:
                 out.append(ast.copy_location(ast.Import(names=[alias]), node))
         return out
